@@ -758,6 +758,10 @@ class Cas:
                     )
                 )
 
+            if existing_fs is fs:
+                # Already processed: it can be queued several times before its first visit (diamonds)
+                continue
+
             all_fs[fs.xmiID] = fs
 
             t = ts.get_type(fs.type.name)
